@@ -120,6 +120,55 @@ func (ns *normState) unknownCallees() map[types.Object]*inlCallee {
 		}
 	}
 	aliased := methodToFuncAliases(ns.pkgs)
+	// the extended variant a canonical function merely forwards to stands for that function
+	forwardTo := map[types.Object]bool{}
+	for short, pk := range ns.pkgs {
+		for _, file := range pk.Syntax {
+			for _, d := range file.Decls {
+				fd, ok := d.(*ast.FuncDecl)
+				if !ok || fd.Body == nil || fd.Recv != nil || len(fd.Body.List) != 1 {
+					continue
+				}
+				if _, known := cset[short+"||"+fd.Name.Name]; !known {
+					continue
+				}
+				ret, ok := fd.Body.List[0].(*ast.ReturnStmt)
+				if !ok || len(ret.Results) != 1 {
+					continue
+				}
+				ce, ok := ret.Results[0].(*ast.CallExpr)
+				if !ok {
+					continue
+				}
+				id, ok := ce.Fun.(*ast.Ident)
+				if !ok {
+					continue
+				}
+				var names []string
+				if fd.Type.Params != nil {
+					for _, f := range fd.Type.Params.List {
+						for _, n := range f.Names {
+							names = append(names, n.Name)
+						}
+					}
+				}
+				if len(names) == 0 || len(ce.Args) < len(names) {
+					continue
+				}
+				same := true
+				for i, n := range names {
+					if a, isId := ce.Args[i].(*ast.Ident); !isId || a.Name != n {
+						same = false
+					}
+				}
+				if same {
+					if obj := pk.TypesInfo.Uses[id]; obj != nil {
+						forwardTo[obj] = true
+					}
+				}
+			}
+		}
+	}
 	// an unknown function with the receiver and signature of a MISSING canonical function may be that
 	// function under a new name (several candidates: the role-based anchors decide): it is not inlined
 	missingSig := map[string]bool{}
@@ -146,7 +195,12 @@ func (ns *normState) unknownCallees() map[types.Object]*inlCallee {
 						continue
 					}
 				}
-				if !ok || fd.Body == nil || fd.Name.Name == "init" || fd.Name.Name == "main" || ast.IsExported(fd.Name.Name) {
+				if !ok || fd.Body == nil || fd.Name.Name == "init" || fd.Name.Name == "main" {
+					continue
+				}
+				// new exported functions (not methods) are inlined at their call sites inside the module as
+				// well: New() { return NewWithOptions(Options{}) }
+				if ast.IsExported(fd.Name.Name) && fd.Recv != nil {
 					continue
 				}
 				fn, _ := pk.TypesInfo.Defs[fd.Name].(*types.Func)
@@ -161,6 +215,9 @@ func (ns *normState) unknownCallees() map[types.Object]*inlCallee {
 					continue
 				}
 				if missingSig[short+"|"+recvStr(sig)+"|"+sigStr(sig)] {
+					continue
+				}
+				if forwardTo[types.Object(fn)] {
 					continue
 				}
 				if sig.Recv() != nil && ifaceMeth[fn.Name()] {
